@@ -33,7 +33,7 @@ TECHNIQUE = ("exhaustive enumeration of all model expressions over a component a
              "evaluated alone, mapped positionally through info.composition")
 RULE = ("every ordered assignment of components to every expression shape; per program every combination of <=D "
         "dimensions off default (per part: values, dispersity, magnetism / M0=0 with angles, zero intensity, empty mesh; "
-        "global: 2-D, spin state); "
+        "global: 2-D, spin state, and for >=3 leaves up to three dispersed parameters in every part at once); "
         "non-trivial = >=2 parts whose intensities alone are non-constant in q and pairwise distinct")
 ASSUMPTIONS = [
     "each leaf evaluated alone by call_kernel (plain models: C01/C06; P@S leaves: C07) is the reference I_k",
@@ -45,7 +45,7 @@ ASSUMPTIONS = [
 COMPONENTS_Q = ["sphere", "cylinder", "core_multi_shell", "power_law", "sphere@hardsphere"]
 COMPONENTS_T = ["sphere", "cylinder", "core_multi_shell", "lamellar", "guinier", "power_law", "sphere@hardsphere",
                 "hollow_cylinder@hayter_msa", "dab"]
-COMPONENTS_4Q = ["sphere", "power_law", "sphere@hardsphere"]
+COMPONENTS_4Q = ["cylinder", "power_law", "sphere@hardsphere"]
 COMPONENTS_4T = ["sphere", "cylinder", "power_law", "sphere@hardsphere"]
 SHAPES = ["{0}+{1}", "{0}*{1}", "{0}+{1}+{2}", "{0}*{1}*{2}", "{0}+{1}*{2}", "{0}*{1}+{2}"]
 SHAPES4 = ["{0}+{1}+{2}+{3}", "{0}*{1}+{2}*{3}"]
@@ -285,6 +285,10 @@ def run_case(case, ctx):
         if pd:
             dims.append(("empty:%d" % k, 0, [1]))       # distribution wholly outside the limits: empty mesh
     dims.append(("dim", "1d", ["2d"]))
+    if nleaf >= 3:
+        # up to three dispersed size parameters (2 points each) in EVERY part at once: the mixture's total number of
+        # dispersity loops exceeds the per-kernel limit of 5 although every part alone stays below it
+        dims.append(("pdall", 0, [1]))
     if any(leaf_dims(lf["leaf"])[0] for lf in leaves):
         dims.append(("spin", 0, [1]))
     kernels = {d: model.make_kernel(_q(d)) for d in ("1d", "2d")}
@@ -300,10 +304,16 @@ def run_case(case, ctx):
         spin = dict(SPIN) if cfg.get("spin") else {}
         pars.update(spin)
         own_all, magnetic_leaf, sld_leaf, zero_leaf, empty_leaf, zeroamp_leaf = [], [], [], [], [], []
+        nloops = 0
         for lf in leaves:
             k, name = lf["k"], lf["leaf"]
             slds, pd = leaf_dims(name)
             own = leaf_base(name, k, ctx.factor(k) if cfg.get("val:%d" % k) else 1.0)
+            if cfg.get("pdall"):
+                for j, nm in enumerate(pd[:3]):
+                    own.update({nm + "_pd": 0.08 + 0.02 * j + 0.01 * k, nm + "_pd_n": 2, nm + "_pd_type": "gaussian",
+                                nm + "_pd_nsigma": 1.5})
+                nloops += len(pd[:3])
             if cfg.get("pd:%d" % k) == "theta":
                 if dim == "2d":
                     own.update({"theta_pd": 8.0 + 3.0 * k, "theta_pd_n": 3, "theta_pd_type": "gaussian",
@@ -352,6 +362,12 @@ def run_case(case, ctx):
                 pars[cn] = v
         if sum(1 for k in range(nleaf) if cfg.get("pd:%d" % k)) >= 2:
             br.append("dispersity-in-several-parts")
+        if cfg.get("pdall"):
+            br.append("dispersity-in-every-part")
+            if nloops >= 6 and not any(cfg.get("empty:%d" % k) or cfg.get("pd:%d" % k) for k in range(nleaf)):
+                br.append("total-dispersity-loops>=6")
+                if nleaf >= 4:
+                    br.append("total-dispersity-loops>=6-4leaf")
         shown = {k: v for k, v in pars.items() if info.parameters.defaults.get(k) != v}
         desc = "call_kernel(%s %s kernel q=%s, pars=%s)" % (expr, dim, Q1 if dim == "1d" else Q2, shown)
 
@@ -364,10 +380,10 @@ def run_case(case, ctx):
                        % (desc, exc, py_leaves, [leaves[k]["leaf"] for k in magnetic_leaf]),
                        dict(fk0, clause="python-part-magnetism-refused"), sub, branches=["python-part-refused"])
             else:
-                r.fail("%s raised %r" % (desc, exc), dict(fk0, clause="raises"), sub)
+                r.fail("%s raised %r" % (desc, exc), dict(fk0, clause="raises"), sub, branches=br)
             continue
         except Exception as exc:  # noqa
-            r.fail("%s raised %r" % (desc, exc), dict(fk0, clause="raises"), sub)
+            r.fail("%s raised %r" % (desc, exc), dict(fk0, clause="raises"), sub, branches=br)
             continue
 
         # ---- oracle: every leaf alone, de-prefixed, scale 1, background 0
@@ -459,6 +475,8 @@ def finish(ctx, report):
     report.require("python-leaf", 20, "pure-Python part")
     report.require("part-dispersity", 100, "dispersity in a part")
     report.require("dispersity-in-several-parts", 50, "dispersity in several parts at once")
+    report.require("total-dispersity-loops>=6", 100, "more dispersity loops in the mixture than one kernel supports (5)")
+    report.require("total-dispersity-loops>=6-4leaf", 20, "... in a 4-leaf program")
     report.require("zero-part", 100, "a part whose intensity is exactly zero")
     report.require("zero-part-in-product", 50, "exactly-zero part inside a product")
     report.require("magnetic-part-2d", 50, "magnetic part, 2-D")
